@@ -859,6 +859,14 @@ class TaskScenario(ScenarioData):
                         efficiency = eff
                     break
 
+        # A team is credited per slot with the effort of its most efficient member
+        # (see bookResources); the end inside the final slot must use the same rate
+        if self._selectedResources and len(self._selectedResources) > 1:
+            for res in self._selectedResources:
+                eff = res.get("efficiency", self.scenarioIdx)
+                if eff is not None and eff > efficiency:
+                    efficiency = eff
+
         # Calculate effort gained per second in this slot
         slot_duration_hours = slot_duration_seconds / 3600.0
         effort_per_slot = slot_duration_hours * efficiency
